@@ -84,7 +84,11 @@ def ref_range(header, n):
             sl = (a, min(int(b), n - 1))
         else:
             sl = (a, n - 1)
-    return ('canonical' if canonical else 'grammar'), sl
+    # 'list': not the canonical spelling, but the list rule of RFC 7230 section 7 (optional blanks around the commas) with a proper first
+    # element - as legal as the canonical spelling, and to be answered alike; 'grammar': lists that begin with empty elements (recipients
+    # may be lenient about them or not)
+    first_ok = bool(spec.split(',')[0].strip(' \t'))
+    return ('canonical' if canonical else 'list' if first_ok else 'grammar'), sl
 
 
 def shards(tier, seed):
@@ -238,7 +242,7 @@ def judge(c, n, rng, ims_kind, method, buf):
                 return 'bytes-mismatch', f'206 {cr!r} delivered {body!r}, the file slice is {data[s:e + 1]!r}'
             if any(len(ch) > buf for ch in c.chunks):
                 return 'chunk-size', f'a delivered chunk has {max(len(ch) for ch in c.chunks)} bytes, buffer is {buf}'
-        if klass in ('canonical', 'grammar'):
+        if klass in ('canonical', 'list', 'grammar'):
             if sl == 'unsat' or sl is None:
                 return 'served-unsat', f'206 {cr!r} for the unsatisfiable first range of {rng!r} (length {n})'
             if (s, e) != sl:
@@ -247,12 +251,12 @@ def judge(c, n, rng, ims_kind, method, buf):
     if code == 416:
         if body and method == 'HEAD':
             return 'wsgi', 'body on HEAD'
-        if klass == 'canonical' and sl not in ('unsat', None):
+        if klass in ('canonical', 'list') and sl not in ('unsat', None):
             return 'refused-sat', f'416 for the satisfiable range {rng!r} on a {n}-byte file (expected {sl[0]}-{sl[1]})'
         return None
     if code == 200:
-        if klass == 'canonical':
-            return 'range-ignored', f'200 for the canonical range {rng!r}'
+        if klass in ('canonical', 'list'):
+            return 'range-ignored', f'200 for the legal range {rng!r}'
         if cl != str(n) or (method == 'GET' and body != data):
             return 'plain', f'Range ignored but the 200 is not the whole file (Content-Length {cl}, {len(body)} bytes)'
         return None
@@ -284,7 +288,7 @@ def judge_bytes(c, data, rng, method):
         return None
     if c.code == 416:
         klass, sl = ref_range(rng, n) if rng else ('other', None)
-        if klass == 'canonical' and sl not in ('unsat', None):
+        if klass in ('canonical', 'list') and sl not in ('unsat', None):
             return 'refused-sat', f'416 for {rng!r}, satisfiable on the current {n}-byte file'
         return None
     return 'status', f'unexpected status {c.status}'
